@@ -56,7 +56,7 @@ class FPGrid:
     def __init__(self, n, unit, mode, tier='quick', cont=0):
         self.n, self.unit, self.mode, self.tier, self.cont = n, unit, mode, tier, cont
         self.name = 'fp:grid:n=%d:%s:%s%s' % (n, unit, mode, ':after%d' % cont if cont else '')
-        self.cap = (90 if mode == 'mul' else 240) if tier == 'quick' else 400
+        self.cap = (300 if mode == 'mul' else 900) if tier == 'quick' else 900   # idle: hardest query 45 s; the margin is for a loaded machine
 
     def _model(self):
         import gearpy.units as gu
@@ -243,6 +243,10 @@ def specs(tier, seed):
     S.append(('r', 'T1', (('schedule', (('run', 3, 'ms', 1, 'sec'),)), ('tag', ':dt_ms_T_sec'))))
     S.append(('r', 'T1', (('schedule', (('run', 2), ('run', 3, 'ms', 1, 'sec'))), ('tag', ':cont_dt_ms_T_sec'))))
     S.append(('r', 'T3', (('schedule', (('run', 2, 'sec', 1, 'min'), ('run', 2, 'min', 2, 'ms'))), ('tag', ':cont_dt_min_T_ms'))))
+    # the dt / T objects handed to run() were built in another unit and converted in place (also there and back) before
+    S.append(('r', 'T1', (('schedule', (('run', 3, 'ms', 1, 'ms', (None, 'sec')),)), ('tag', ':T_inplace_sec_ms'))))
+    S.append(('r', 'T1', (('schedule', (('run', 2, 'sec', 1, 'min', ('ms', 'sec')), ('run', 3, 'min', 1, 'sec', ('sec', 'hour')))),
+                          ('tag', ':dt_T_inplace_cont'))))
     ns = (2, 3, 7, 10, 30) if tier == 'quick' else tuple(range(2, 101))
     for n in ns:
         S.append(('fp', n, 'sec', 'mul', tier, 0))
@@ -267,15 +271,15 @@ def build(sp):
     return GridSim(topo, props=('C11',), **dict(kw))
 
 
-JOB_CAP = {'quick': 900, 'thorough': 3000}
+JOB_CAP = {'quick': 3000, 'thorough': 3600}
 REQUIRED_TRIGGERS = {'quick': ('grid.number_of_instants', 'grid.uniform', 'grid.stopped_run_is_a_prefix', 'fp.grid')}
 BOUNDS = {
     'quick': 'R mode: Solver.run with a symbolic dt (every parameter symbolic), K in {2,3}, continuation 2+2; concrete dt K=6, 2+3; stop prefix, reset + rerun (+ continuation) on the same Solver, '
-             'dt in ms, continuation in hours, dt and T of one call in different units (fresh and continued, other dt value); Float64 mode through the real Solver.run on an equilibrium configuration: one '
+             'dt in ms, continuation in hours, dt and T of one call in different units (fresh and continued, other dt value), dt / T objects built in one unit and converted in place to another before the call; Float64 mode through the real Solver.run on an equilibrium configuration: one '
              'exploration per n in {2,3,7,10,30}, dt ANY double in [1e-4,1e4], T = dt*n through TimeInterval.__mul__; decimal '
              'dt = m/10^e with m <= 500, e in {1,2} and T the decimal literal n*m/10^e for n = 7; units sec (all n), '
-             'min/hour/ms (n=10); continuation after a first run of 2 and 7 steps; 90 s (240 s decimal) per query, z3 raced against cvc5',
-    'thorough': 'Float64 mode for every n in 2..100 (T = dt*n); decimal dt with m <= 4000 and e in {1,2,3} for n in {2,3,5,7,10,20,30,50,100}; 400 s per query',
+             'min/hour/ms (n=10); continuation after a first run of 2 and 7 steps; query caps 300 s (900 s decimal; the hardest takes 45 s on an idle machine), z3 raced against cvc5',
+    'thorough': 'Float64 mode for every n in 2..100 (T = dt*n); decimal dt with m <= 4000 and e in {1,2,3} for n in {2,3,5,7,10,20,30,50,100}; 900 s per query',
 }
 OUTSIDE = 'n > 100; dt outside [1e-4,1e4]; n symbolic (probe: unknown); dt and T in different units in FP mode'
 STUBS = sim.STUBS + ['FP mode: gearpy.solver.np.arange = exact model of numpy (_calc_length ceil of the double quotient, '
